@@ -18,22 +18,59 @@ use crate::core::mix;
 /// Number of case evaluations finished so far (watchdog: see `start_watchdog`).
 pub static PROGRESS: AtomicU64 = AtomicU64::new(0);
 
-/// A run call that never returns cannot be told from a slow one by an oracle:
-/// when no case evaluation finishes for `secs` seconds the process reports
-/// "inconclusive" (exit code 2), never a violation.
+/// Engine name written into replay files of stalled cases (set by `main`).
+pub static ENGINE: std::sync::OnceLock<&'static str> = std::sync::OnceLock::new();
+
+/// The case each driver thread is evaluating right now, as a complete replay file.
+static INFLIGHT: Mutex<Vec<Option<String>>> = Mutex::new(Vec::new());
+
+fn inflight_set(slot: usize, v: Option<String>) {
+    if let Ok(mut g) = INFLIGHT.lock() {
+        if g.len() <= slot {
+            g.resize(slot + 1, None);
+        }
+        g[slot] = v;
+    }
+}
+
+/// A run call (or a drop) that never returns cannot be told from a slow one by an
+/// oracle inside the process. When no case evaluation finishes for `secs`
+/// consecutive wake-ups of this thread (it sleeps one second between them and
+/// counts wake-ups, not wall-clock time, so a frozen or starved process does not
+/// trip it), the cases in flight are written to `failures/<ID>-stall-<k>.json`
+/// and the process exits with code 3. The dispatcher (`check`) then replays each
+/// candidate in a fresh process: only a case that blocks again, twice, without
+/// consuming CPU is reported as a violation (and only for the properties that
+/// promise that the call returns); anything else is "inconclusive" (exit 2).
 pub fn start_watchdog(secs: u64) {
     std::thread::spawn(move || {
         let mut last = PROGRESS.load(Ordering::Relaxed);
-        let mut since = Instant::now();
+        let mut idle_ticks = 0u64;
         loop {
-            std::thread::sleep(std::time::Duration::from_millis(500));
+            std::thread::sleep(std::time::Duration::from_millis(1000));
             let p = PROGRESS.load(Ordering::Relaxed);
             if p != last {
                 last = p;
-                since = Instant::now();
-            } else if since.elapsed().as_secs() >= secs {
-                eprintln!("WATCHDOG: no case evaluation finished for {} s (a run call seems to hang): inconclusive", secs);
-                std::process::exit(2);
+                idle_ticks = 0;
+            } else {
+                idle_ticks += 1;
+                if idle_ticks >= secs {
+                    eprintln!("WATCHDOG: no case evaluation finished for {} watchdog ticks (a call seems to hang)", secs);
+                    let vd = verif_dir();
+                    let _ = std::fs::create_dir_all(format!("{}/failures", vd));
+                    let mut k = 0;
+                    if let Ok(g) = INFLIGHT.lock() {
+                        for c in g.iter().flatten() {
+                            let prop = serde_json::from_str::<Value>(c).ok().and_then(|v| v["property"].as_str().map(|s| s.to_string())).unwrap_or_default();
+                            let path = format!("{}/failures/{}-stall-{}-{}.json", vd, prop, std::process::id(), k);
+                            if std::fs::write(&path, c).is_ok() {
+                                println!("STALL-CANDIDATE {}", path);
+                                k += 1;
+                            }
+                        }
+                    }
+                    std::process::exit(if k > 0 { 3 } else { 2 });
+                }
             }
         }
     });
@@ -186,6 +223,7 @@ impl Ctx {
     pub fn run<S: SubCheck>(&mut self, s: &S, cases: u32, workers: usize) {
         let workers = workers.max(1).min(cases.max(1) as usize);
         let per = (cases as usize + workers - 1) / workers;
+        let slot_base = 0usize;
         let stop = AtomicBool::new(false);
         let evals = AtomicU64::new(0);
         let ncases = AtomicU64::new(0);
@@ -230,7 +268,21 @@ impl Ctx {
                         if stop.load(Ordering::Relaxed) && !failed.get() {
                             return Ok(());
                         }
+                        inflight_set(
+                            slot_base + w,
+                            serde_json::to_string(&json!({
+                                "property": prop.as_str(),
+                                "engine": ENGINE.get().copied().unwrap_or("simlab"),
+                                "sub": s.name(),
+                                "clause": "stalled",
+                                "signature": format!("{}/stalled", prop),
+                                "detail": "no case evaluation finished while this case was in flight",
+                                "case": &c,
+                            }))
+                            .ok(),
+                        );
                         let v = s.eval(&c);
+                        inflight_set(slot_base + w, None);
                         PROGRESS.fetch_add(1, Ordering::Relaxed);
                         match v {
                             Verdict::Pass {
@@ -497,7 +549,12 @@ pub fn replay_one<S: SubCheck>(s: &S, prop: &str, case: &Value, path: &str) -> i
     };
     crate::core::IS_DRIVER.with(|d| d.set(true));
     // MT cases are not deterministic: re-run several times.
-    let reps = if s.substrate().contains("MT") || s.substrate().contains("real-threads") { 300 } else { 3 };
+    let mut reps = if s.substrate().contains("MT") || s.substrate().contains("real-threads") { 300 } else { 3 };
+    if let Some(r) = std::env::var("VERIF_REPLAY_REPS").ok().and_then(|x| x.parse::<usize>().ok()) {
+        if reps > 3 {
+            reps = r.max(1);
+        }
+    }
     for _ in 0..reps {
         match s.eval(&c) {
             Verdict::Pass { .. } => {}
